@@ -3,42 +3,38 @@ package main
 import (
 	"bytes"
 	"fmt"
+	"os"
+	"strings"
 
 	"github.com/CloudyKit/jet/v6"
 )
 
-func run(files map[string]string, entry string) {
+func main() {
 	ld := jet.NewInMemLoader()
-	for p, c := range files {
-		ld.Set(p, c)
+	ents, _ := os.ReadDir("/tmp/c07f")
+	for _, e := range ents {
+		b, _ := os.ReadFile("/tmp/c07f/" + e.Name())
+		ld.Set("/"+strings.ReplaceAll(e.Name(), "_", "/"), string(b))
 	}
-	set := jet.NewSet(ld)
-	t, err := set.GetTemplate(entry)
+	if len(os.Args) > 1 {
+		ld.Set("/inc1.jet", os.Args[1])
+	}
+	set := jet.NewSet(ld, jet.WithSafeWriter(nil))
+	set.AddGlobal("html", func(s string) string { return s + "!" })
+	set.AddGlobal("ident", func(v interface{}) interface{} { return v })
+	t, err := set.GetTemplate("/main.jet")
 	if err != nil {
-		fmt.Println("parse error", err)
+		fmt.Printf("parse error %v\n", err)
 		return
 	}
-	func() {
-		defer func() {
-			if e := recover(); e != nil {
-				fmt.Printf("EXECUTE PANIC %v\n", e)
-			}
-		}()
-		var b bytes.Buffer
-		err := t.Execute(&b, nil, nil)
-		fmt.Printf("out=%q err=%v\n", b.String(), err)
-	}()
-}
-
-func main() {
-	run(map[string]string{
-		"/main.jet": `{{block wrap()}}[{{include "/i1.jet"}}]{{end}}{{yield wrap() content}}C{{ nope }}{{end}}`,
-		"/i1.jet":   `{{include "/i2.jet"}}`,
-		"/i2.jet":   `{{yield content}}`,
-	}, "/main.jet")
-	run(map[string]string{
-		"/main.jet": `{{block wrap()}}[{{include "/i1.jet"}}]{{end}}{{try}}{{yield wrap() content}}C{{ nope }}{{end}}{{catch}}caught{{end}}|after`,
-		"/i1.jet":   `{{include "/i2.jet"}}`,
-		"/i2.jet":   `{{yield content}}`,
-	}, "/main.jet")
+	var b bytes.Buffer
+	vars := jet.VarMap{}
+	vars.Set("trimSpace", func(s string) string { return s + "!" })
+	vars.Set("sa", "x")
+	vars.Set("sb", "y")
+	vars.Set("ia", 3)
+	vars.Set("big", "B")
+	vars.Set("li", []int{3, 0, 7})
+	err = t.Execute(&b, vars, "c<x")
+	fmt.Printf("out=%q err=%v\n", b.String(), err)
 }
